@@ -209,6 +209,77 @@ def classify_completed_stop(c, pieces, err):
     return {}
 
 
+def classify_damaged(c, pieces, err):
+    """Names the cause of an outcome that differs from the expectation when it is EXACTLY a recorded finding.
+    D25 (see classify_completed_stop) and D35: a damaged message whose metadata cannot be read either (section 3 length
+    changed) is not skipped by its declared total length: the scan resumes one byte behind its signature, and a complete
+    message held in its body is delivered.  The cause is named only when every delivered piece is a good message at its
+    own start, a D25-completed message at its start, or a standalone-decodable message strictly inside such a damaged
+    message, and every good message is delivered."""
+    r = classify_completed_stop(c, pieces, err)
+    if r:
+        return r
+    if not c['continue_on_error'] or c['info_only'] or err is not None:
+        return {}
+    from pybufrkit.decoder import Decoder
+    from pybufrkit.errors import PyBufrKitError
+    stream, starts, dmg = c['stream'], c['starts'], c['damaged']
+    kinds = iter(c['damage_kinds'])
+    good, completed, unreadable = {}, {}, []
+    for off, bad in zip(starts, dmg):
+        declared = int.from_bytes(stream[off + 4: off + 7], 'big')
+        if not bad:
+            good[off] = stream[off: off + declared]
+            continue
+        kind = next(kinds)
+        try:
+            got = bytes(Decoder().process(stream[off:], start_signature=None).serialized_bytes)
+            if kind in ('sec3-len-plus', 'sec4-len-plus') and declared < len(got) <= declared + 7 \
+                    and set(stream[off + declared: off + len(got)]) <= {0x37} and got == stream[off: off + len(got)]:
+                completed[off] = got
+            continue
+        except PyBufrKitError:
+            pass
+        try:
+            Decoder().process(stream[off:], start_signature=None, info_only=True)
+        except PyBufrKitError:
+            unreadable.append((off, off + declared))
+    cursor, seen_good, n_inner, n_completed = 0, [], 0, 0
+    for p in pieces:
+        # the first occurrence at or behind the cursor that is one of the three admissible places
+        i, what = stream.find(p, cursor), None
+        while i >= 0:
+            if good.get(i) == p:
+                what = 'good'
+            elif completed.get(i) == p:
+                what = 'completed'
+            elif any(lo < i and i + len(p) <= hi for lo, hi in unreadable):
+                what = 'inner'
+            if what:
+                break
+            i = stream.find(p, i + 1)
+        if what is None:
+            return {}
+        if what == 'good':
+            seen_good.append(i)
+        elif what == 'completed':
+            n_completed += 1
+        else:
+            try:
+                if bytes(Decoder().process(p).serialized_bytes) != p:
+                    return {}
+            except Exception:
+                return {}
+            n_inner += 1
+        cursor = i + len(p)
+    if seen_good != sorted(good) or not n_inner:
+        return {}
+    out = {'cause': 'embedded-message-delivered-from-damaged-message-with-unreadable-metadata'}
+    if n_completed:
+        out['also'] = 'section-length-plus-completed-by-following-sevens'
+    return out
+
+
 def dnp_span_cases(pool):
     """An undefined element substituted INSIDE a 221YYY (data not present) span: the descriptor is still reached
     and must still be reported, the message skipped."""
@@ -231,6 +302,38 @@ def dnp_span_cases(pool):
                                   'info_only': io_, 'continue_on_error': coe, 'filter': None, 'expect': exp,
                                   'expect_err': err, 'tags': ['damaged', 'undefined-element-inside-221-span'],
                                   'damage_kinds': ['undef-element'], 'damaged': [False, True, False], 'in_domain': False})
+    # an undefined element / sequence substituted at EVERY position of templates whose descriptors are reached through
+    # other handlers than the plain member loop: a 203YYY definition list, a 204YYY span, a bitmap definition and its
+    # class-33 values, 201/202/207/208 spans, a fixed replication, a marker operator (data all zero: nothing is skipped)
+    import pipeline as P2
+    from pybufrkit.decoder import Decoder
+    for ti, ids in enumerate([[203012, 7001, 12001, 203255, 7001, 203000, 1001],
+                              [204004, 31021, 12001, 204000, 1001],
+                              [1001, 1002, 222000, 236000, 101002, 31031, 33007, 33007],
+                              [208004, 1015, 208000, 201130, 12001, 201000, 202129, 7001, 202000],
+                              [102002, 12001, 7001, 1001],
+                              [207002, 12001, 207000, 223000, 236000, 101001, 31031, 223255]]):
+        whole = P2.frame_message(ids, 1, False, 33, bytes(64))
+        try:
+            with S.quiet():
+                Decoder().process(whole)
+        except Exception:
+            continue
+        so = S.section_offsets(whole)
+        for k in range(len(ids)):
+            for code in (0x3FFF, 0xFFFF):         # 063255, 363255
+                bad = bytearray(whole)
+                bad[so['o3'] + 7 + 2 * k: so['o3'] + 9 + 2 * k] = struct.pack('>H', code)
+                msgs = [good[0]['bytes'], bytes(bad), good[1]['bytes']]
+                stream = b''.join(msgs)
+                starts = [0, len(msgs[0]), len(msgs[0]) + len(msgs[1])]
+                for io_, coe in ((False, True), (False, False)):
+                    exp, err = ([msgs[0], msgs[2]], None) if coe else ([msgs[0]], 'lib')
+                    cases.append({'name': 'undef-at-%d-%d-%04x' % (ti, k, code), 'stream': stream, 'starts': starts,
+                                  'info_only': io_, 'continue_on_error': coe, 'filter': None, 'expect': exp,
+                                  'expect_err': err, 'tags': ['damaged', 'undefined-descriptor-at-every-position'],
+                                  'damage_kinds': ['undef-element' if code == 0x3FFF else 'undef-sequence'],
+                                  'damaged': [False, True, False], 'in_domain': False})
     # the stop signature overwritten by every pattern, incl. bytes that are not UTF-8 (whatever the error message
     # is built from, the error must be the library's)
     for pat in (b'XXXX', b'7778', b'\x00\x00\x00\x00', b'\xff\xff\xff\xff', b'77\x807', b'\xc3\x28\xa0\xa1', b'\x80\x80\x80\x80'):
@@ -286,7 +389,7 @@ def run(ctx):
         pool, _files = S.build_pool(ctx)
         dmg = S.make_damaged_cases(ctx, pool, ctx.n(40, 900))
         dmg += dnp_span_cases(pool)
-        S.run_stream_cases(ctx, dmg, kind='C12-stream', enforce_expect=True, classify=classify_completed_stop)
+        S.run_stream_cases(ctx, dmg, kind='C12-stream', enforce_expect=True, classify=classify_damaged)
     # end to end: damaged streams through the extracted scanner over the concrete framing decoder (StreamFrame.v)
     from props import c11_e2e
     c11_e2e.run(ctx, damaged=True)
